@@ -165,6 +165,20 @@ CHECKS.update({
             "demanded (the statement does not)", "DESIGN.md 4 C19"),
 })
 
+CHECKS.update({
+    "C20": ("Hypothesis grammar-based generation + rule-based state machine (evaluation histories) + atheris coverage-guided fuzzing (thorough) with an independent AST evaluator; synthetic-climatology differential for create_config",
+            "Expressions generated from the stated grammar (depth <=5) are rendered as tokens and eval_fx must equal, exactly, "
+            "an independent AST evaluator doing the same IEEE operations; a RuleBasedStateMachine interleaves well-formed "
+            "evaluations with truncated / unbalanced expressions, unknown identifiers, statistic switches and validator "
+            "calls and demands history-free results; token strings with near-misses must be accepted / rejected by "
+            "QcVariableConfig exactly per token class; synthetic time-constant climatologies (netCDF-3, 2-D/3-D, NaN "
+            "cells) with boxes on/between grid lines and 1-365 day ranges must yield spans equal to the expressions on the "
+            "in-box cell statistics (1e-9). Thorough adds 16 atheris (libFuzzer) campaigns with both oracles inside the "
+            "target.",
+            "unary plus, ^, functions, E/PI are outside the grammar; float() spellings that are not decimal literals are not "
+            "judged; spline of a constant field is constant up to rounding", "DESIGN.md 4 C20"),
+})
+
 NOT_APPLICABLE = {}
 
 
